@@ -53,6 +53,9 @@ def run(chk):
         k = S.quant_depth(f)
         tasks.append({'n': 2, 'k': k, 'c': 0, 'entry': 'multi_ext', 'phis': [f], 'twin': [twin_for(f)]})
         if k <= 1 and (thorough or (len(tasks) % 3 == 0 and not heavy(f))): tasks.append({'n': 2, 'k': k, 'c': 1, 'entry': 'multi_ext_dirty', 'phis': [f], 'check_unit': True, 'timeout_ms': 600000 if thorough else 60000})
+    # nested restricted domains with a colour bit: the two domains may be non-empty for different colours only
+    for f in [('bind', 'x', 'd', ('bind', 'xx', 'e', ('or', ('EX', XX), ('AX', X)))), ('exists', 'x', 'd', ('forall', 'xx', 'e', ('jump', 'x', ('EX', XX)))), ('forall', 'x', 'd', ('exists', 'xx', 'e', ('and', XX, ('EX', X))))]:
+        tasks.append({'n': 2, 'k': 2, 'c': 1, 'entry': 'multi_ext_dirty', 'phis': [f], 'check_unit': True, 'timeout_ms': 120000})
     for (l, r) in readme_pairs():
         tasks.append({'n': 2, 'k': S.quant_depth(l), 'c': 0, 'entry': 'multi_ext_dirty', 'phis': [l, r], 'equal_pairs': [(0, 1)]})
     for (l, r) in readme_pairs()[:9 if thorough else 3]:
